@@ -141,6 +141,11 @@ package client
 //@   atcall[C06.stream_write_unchanged C02.write_unchanged] (types.RpcReadWriter).Write : arg2 == rpc && arg1 == ctx
 //@   ensures[C02.one_write C06.one_write] ncalls("(types.RpcReadWriter).Write") == old(ncalls("(types.RpcReadWriter).Write")) + 1
 //@   ensures[C05.a_call_never_ends_the_connection C09.a_call_never_ends_the_connection] ncalls("call:client.(*RpcMultiplexer).closeError") == old(ncalls("call:client.(*RpcMultiplexer).closeError"))
+// the stream's writer also carries the reset its owner writes *before* the teardown fires the release
+// signal: it may wait for the registry lock only once the read loop has ended (rm.ctx is cancelled by
+// closeError alone, after readLoop returned) - a running read loop may hold that lock parked on this
+// very stream until the signal fires
+//@   atcall[C11.owner_takes_no_registry_lock_before_it_signals C09.owner_takes_no_registry_lock_before_it_signals C13.owner_takes_no_registry_lock_before_it_signals] client.(*RpcMultiplexer).readErrorIfDone : done(rm.ctx)
 
 // ---------------------------------------------------------------------------------
 // clientStream
@@ -200,6 +205,8 @@ package client
 //@     | && arg2.Body != nil && arg2.Body.Data == bsContent(body) && arg2.Status == nil && arg2.Trailer == nil && arg2.Reset_ == nil && arg1 == cs.ctx
 //@   atcall[C02.message_bytes] (google.golang.org/grpc/encoding.CodecV2).Marshal : arg1 == m
 //@   ensures[C06.message_once C02.message_once] ncalls("(types.RpcReadWriter).Write") <= old(ncalls("(types.RpcReadWriter).Write")) + 1
+//@   ensures[C11.failed_send_aborts_the_stream C14.failed_send_aborts_the_stream C07.failed_send_aborts_the_stream] result != nil && ncalls("(google.golang.org/grpc/encoding.CodecV2).Marshal") == old(ncalls("(google.golang.org/grpc/encoding.CodecV2).Marshal")) + 1
+//@     | ==> ncalls("fnfield:H.client.clientStream.teardown") == old(ncalls("fnfield:H.client.clientStream.teardown")) + 1
 //@   ensures[C02.send_ok_means_written C07.send_fails_when_done] result == nil ==> ncalls("(types.RpcReadWriter).Write") == old(ncalls("(types.RpcReadWriter).Write")) + 1
 
 //@ func client.(*clientStream).RecvMsg
